@@ -93,6 +93,7 @@ func (p *Project) Build() (*Server, error) {
 		return nil, err
 	}
 	u.FillDirectives(dirs)
+	u.FillComplexity(cplx, templates.ToGo)
 	es := mk()
 	ex := executor.New(es)
 	s := &Server{P: p, U: u, ES: es, Schema: schema, Exec: ex, Stub: stub, Directives: dirs, Complexity: cplx}
@@ -114,6 +115,7 @@ type Response struct {
 	HasNext  *bool
 	Label    string
 	Path     ast.Path
+	OpCtx    *graphql.OperationContext
 }
 
 // Do executes one operation directly against the executor with the given Exec state current.
@@ -129,14 +131,14 @@ func (s *Server) Do(ctx context.Context, e *univ.Exec, query, opName string, var
 	rc, errs := ex.CreateOperationContext(ctx, &graphql.RawParams{Query: query, OperationName: opName, Variables: vars})
 	if errs != nil {
 		resp := ex.DispatchError(graphql.WithOperationContext(ctx, rc), errs)
-		return &Response{Errors: resp.Errors, Rejected: true}
+		return &Response{Errors: resp.Errors, Rejected: true, OpCtx: rc}
 	}
 	rh, ctx2 := ex.DispatchOperation(ctx, rc)
 	resp := rh(ctx2)
 	if resp == nil {
 		return &Response{Recovers: int(recovers.Load())}
 	}
-	return &Response{Data: resp.Data, Errors: resp.Errors, Recovers: int(recovers.Load()), HasNext: resp.HasNext, Label: resp.Label, Path: resp.Path}
+	return &Response{Data: resp.Data, Errors: resp.Errors, Recovers: int(recovers.Load()), HasNext: resp.HasNext, Label: resp.Label, Path: resp.Path, OpCtx: rc}
 }
 
 // DoAll executes one operation and reads payloads until the response handler returns nil (or max
